@@ -30,10 +30,14 @@ type regSpec struct {
 	Color   bool
 	TreatAs int // -1 none
 	ErrDev  bool
+	// ErrDevForm: how the request is written: 0 RegWithPrintToErrorDevice(true); 1 RegWithPrintToErrorDevice() - the form
+	// of the package documentation and the README; 2 RegWithPrintToErrorDevice(false, true) (the last value counts).
+	// Without a request: 0 no option at all; 1 RegWithPrintToErrorDevice(false); 2 RegWithPrintToErrorDevice(true, false)
+	ErrDevForm int
 }
 
 func (r regSpec) String() string {
-	return fmt.Sprintf("RegisterLevel(%d,%q,tags=%v%q,color=%v,treatAs=%d,errdev=%v)", r.Value, r.Title, r.HasTags, r.Tags, r.Color, r.TreatAs, r.ErrDev)
+	return fmt.Sprintf("RegisterLevel(%d,%q,tags=%v%q,color=%v,treatAs=%d,errdev=%v(written in form %d))", r.Value, r.Title, r.HasTags, r.Tags, r.Color, r.TreatAs, r.ErrDev, r.ErrDevForm)
 }
 
 type known struct {
@@ -125,15 +129,39 @@ func quietParse(s string) (slog.Level, bool) {
 	return l, err == nil
 }
 
+// probeRecord emits one record at level l through an entry point that takes a level value (0 LogAttrs, 1 Logit,
+// 2 the std log bridge NewLogLogger(logger, l).Print) on a logfmt logger and reports where it went and what its level
+// field says.
 func (w *world) routedToError(l slog.Level) bool {
+	toErr, _, _ := w.probeRecord(l, 0)
+	return toErr
+}
+
+func (w *world) probeRecord(l slog.Level, via int) (toError bool, levelField string, records int) {
 	log := vlib.NewEventLog()
 	nw, ew := vlib.NewRec(log, 1, 0), vlib.NewRec(log, 2, 0)
-	lg := slog.New("route").SetWriter(nw).SetErrorWriter(ew).SetLevel(slog.AlwaysLevel)
-	lg.LogAttrs(context.Background(), l, "route probe")
-	for _, e := range log.Writes() {
-		return e.W == 2
+	lg := slog.New("route").SetWriter(nw).SetErrorWriter(ew).SetLevel(slog.AlwaysLevel).SetColorMode(false)
+	switch via {
+	case 1:
+		lg.Logit(context.Background(), l, "route probe")
+	case 2:
+		slog.NewLogLogger(lg, l).Print("route probe")
+	default:
+		lg.LogAttrs(context.Background(), l, "route probe")
 	}
-	return false
+	ws := log.Writes()
+	for _, e := range ws {
+		toError = e.W == 2
+		if pairs, err := vlib.ParseLogfmtRecord(e.Payload); err == nil {
+			for _, p := range pairs {
+				if p.Key == "level" {
+					levelField = p.Str
+				}
+			}
+		}
+		break
+	}
+	return toError, levelField, len(ws)
 }
 
 // checkLevel verifies all per-level clauses for a known level.
@@ -223,8 +251,17 @@ func (w *world) checkLevel(l slog.Level) {
 		}
 	}
 	if l != slog.OffLevel {
-		if got, want := w.routedToError(l), w.model.ErrorClass(l); got != want {
-			t.Fatalf("C17 after [%s]: record at level %d routed to the error writers = %v, want %v", w.history(), int(l), got, want)
+		for via, ep := range []string{"LogAttrs", "Logit", "NewLogLogger(logger, level).Print"} {
+			toErr, field, n := w.probeRecord(l, via)
+			if n != 1 {
+				t.Fatalf("C17 after [%s]: a record at level %d issued through %s on a logger at Always: %d records written", w.history(), int(l), ep, n)
+			}
+			if want := w.model.ErrorClass(l); toErr != want {
+				t.Fatalf("C17 after [%s]: record at level %d (issued through %s) routed to the error writers = %v, want %v", w.history(), int(l), ep, toErr, want)
+			}
+			if field != want {
+				t.Fatalf("C17 after [%s]: record at level %d (issued through %s) says level=%q: the level does not answer to its title %q", w.history(), int(l), ep, field, want)
+			}
 		}
 	}
 }
@@ -277,8 +314,17 @@ func (w *world) register(r regSpec) {
 	if r.TreatAs >= 0 {
 		opts = append(opts, slog.RegWithTreatedAsLevel(slog.Level(r.TreatAs)))
 	}
-	if r.ErrDev {
+	switch {
+	case r.ErrDev && r.ErrDevForm == 1:
+		opts = append(opts, slog.RegWithPrintToErrorDevice())
+	case r.ErrDev && r.ErrDevForm == 2:
+		opts = append(opts, slog.RegWithPrintToErrorDevice(false, true))
+	case r.ErrDev:
 		opts = append(opts, slog.RegWithPrintToErrorDevice(true))
+	case r.ErrDevForm == 1:
+		opts = append(opts, slog.RegWithPrintToErrorDevice(false))
+	case r.ErrDevForm == 2:
+		opts = append(opts, slog.RegWithPrintToErrorDevice(true, false))
 	}
 	err := slog.RegisterLevel(slog.Level(r.Value), r.Title, opts...)
 
@@ -390,6 +436,7 @@ func genSpec(t *rapid.T, w *world) regSpec {
 		r.TreatAs = rapid.IntRange(0, 6).Draw(t, "treatAs")
 	}
 	r.ErrDev = rapid.Bool().Draw(t, "errdev")
+	r.ErrDevForm = rapid.IntRange(0, 2).Draw(t, "errdevForm")
 	return r
 }
 
